@@ -165,14 +165,22 @@ func (p *PaymentService) Withdraw(ctx context.Context, sig string, wallet string
 		total = p.WithdrawFee(total)
 	}
 
+	// Take the credit that is being paid out off the books before settling, so
+	// that it can't be paid again if anything goes wrong afterwards.
+	credit := new(big.Int).Set(&balance.Credit)
+	if err := p.BalanceStore.AddAccountBalance(account, new(big.Int).Neg(credit)); err != nil {
+		return err
+	}
+
 	newBalance := big.NewInt(0)
 	txID, err := p.Settle(account, total, newBalance)
 	if err != nil {
+		// Nothing was paid, put the credit back.
+		if errRestore := p.BalanceStore.AddAccountBalance(account, credit); errRestore != nil {
+			logger.Printf("Withdraw from account %q failed to settle and failed to restore credit %d: %s", account, credit, errRestore)
+		}
 		return err
 	}
 	logger.Printf("Withdraw from account %q for %d: %s", account, total, txID)
-
-	// The credit was paid out with the settlement, take it off the books so
-	// that it can't be withdrawn again.
-	return p.BalanceStore.AddAccountBalance(account, new(big.Int).Neg(&balance.Credit))
+	return nil
 }
